@@ -7,8 +7,11 @@ import (
 	"encoding/json"
 	"fmt"
 	mrand "math/rand"
+	"os"
+	"runtime"
 	"runtime/debug"
 	"sort"
+	"strconv"
 	"strings"
 	"testing"
 	"testing/synctest"
@@ -108,14 +111,14 @@ type Oracle interface {
 // BaseOracle: no-op defaults.
 type BaseOracle struct{}
 
-func (BaseOracle) SessionOpen(*Run, *framework.Session)                        {}
-func (BaseOracle) BeforeAction(*Run, string, *framework.Session)               {}
-func (BaseOracle) AfterAction(*Run, string, *framework.Session)                {}
-func (BaseOracle) Event(*Run, *framework.Session, *framework.Event, bool)      {}
-func (BaseOracle) SessionClose(*Run, *framework.Session)                       {}
-func (BaseOracle) AfterCycle(*Run, int, []Decision)                            {}
-func (BaseOracle) AfterOp(*Run, Op)                                            {}
-func (BaseOracle) Finish(*Run)                                                 {}
+func (BaseOracle) SessionOpen(*Run, *framework.Session)                   {}
+func (BaseOracle) BeforeAction(*Run, string, *framework.Session)          {}
+func (BaseOracle) AfterAction(*Run, string, *framework.Session)           {}
+func (BaseOracle) Event(*Run, *framework.Session, *framework.Event, bool) {}
+func (BaseOracle) SessionClose(*Run, *framework.Session)                  {}
+func (BaseOracle) AfterCycle(*Run, int, []Decision)                       {}
+func (BaseOracle) AfterOp(*Run, Op)                                       {}
+func (BaseOracle) Finish(*Run)                                            {}
 
 func (r *Run) Fail(prop, rule, format string, args ...any) {
 	if len(r.Res.Violations) > 50 {
@@ -189,6 +192,21 @@ func RunScript(t *testing.T, s *Script, oracles []Oracle, keepTrace bool) (res *
 	rng := mrand.New(mrand.NewSource(int64(s.MapSeed) ^ 0x5eed))
 	uuid.SetRand(rng)
 	utilrand.Seed(int64(s.MapSeed) + 17)
+	done := make(chan struct{})
+	defer close(done)
+	go func() { // real-time watchdog, outside the bubble
+		select {
+		case <-done:
+		case <-time.After(time.Duration(envIntRun("KAISIM_WATCHDOG_S", 120)) * time.Second):
+			b, _ := json.MarshalIndent(map[string]any{"property": s.Prop, "class": "INFRA/watchdog", "detail": "run did not finish in real time", "script": s}, "", " ")
+			_ = os.WriteFile(fmt.Sprintf("%s/hang-%s-%d.json", os.Getenv("KAISIM_REPLAY_DIR"), s.Prop, os.Getpid()), b, 0o644)
+			buf := make([]byte, 1<<20)
+			n := runtime.Stack(buf, true)
+			_ = os.WriteFile(fmt.Sprintf("%s/hang-%s-%d.stacks", os.Getenv("KAISIM_REPLAY_DIR"), s.Prop, os.Getpid()), buf[:n], 0o644)
+			fmt.Println("WATCHDOG: run hung; script and stacks written")
+			os.Exit(3)
+		}
+	}()
 	func() {
 		defer func() {
 			if p := recover(); p != nil {
@@ -224,6 +242,9 @@ func (r *Run) run(keepTrace bool) {
 		r.apply(op)
 		synctest.Wait()
 		r.API.Flush()
+		if bl := r.API.Backlogs(); len(bl) > 0 {
+			r.Fail("INFRA", "watch_backlog", "after op %v at %s: %v", op, time.Now().Format(time.RFC3339), bl)
+		}
 		r.afterOp(op)
 		if r.Sched.Panic != "" {
 			break
@@ -265,7 +286,7 @@ func (r *Run) apply(op Op) {
 		synctest.Wait()
 		r.API.Flush()
 		if panicked {
-			r.Fail("C10", "panic", "scheduling cycle panicked: %s", r.Sched.Panic)
+			r.Fail("C10", "panic", "scheduling cycle panicked: %s\n%s", r.Sched.Panic, panicSite(r.Sched.PanicStack))
 			return
 		}
 		ds := r.Sched.Obs.CycleDecisions(r.cycle)
@@ -448,4 +469,41 @@ func (r *Run) stateHash() string {
 		parts = append(parts, fmt.Sprintf("d:%d:%s:%s:%s:%s:%v", d.Cycle, d.Action, d.Kind, d.Pod, d.Node, d.GPUGroups))
 	}
 	return hashStrings(parts)
+}
+
+func envIntRun(name string, def int) int {
+	if v := os.Getenv(name); v != "" {
+		if n, err := strconv.Atoi(v); err == nil {
+			return n
+		}
+	}
+	return def
+}
+
+// panicSite extracts the /repo frames of a panic stack (the signature of a crash).
+func panicSite(stack string) string {
+	var out []string
+	lines := strings.Split(stack, "\n")
+	seenPanic := false
+	for i := 0; i+1 < len(lines); i++ {
+		if strings.HasPrefix(lines[i], "panic(") {
+			seenPanic = true
+			continue
+		}
+		if seenPanic && strings.Contains(lines[i+1], "/repo/") && !strings.HasPrefix(lines[i], "\t") {
+			fn := lines[i]
+			if k := strings.LastIndex(fn, "("); k > 0 {
+				fn = fn[:k]
+			}
+			loc := strings.TrimSpace(lines[i+1])
+			if k := strings.Index(loc, " +0x"); k > 0 {
+				loc = loc[:k]
+			}
+			out = append(out, fn+" "+loc)
+			if len(out) >= 6 {
+				break
+			}
+		}
+	}
+	return strings.Join(out, " <- ")
 }
